@@ -931,3 +931,46 @@ package rapid
 //@   modifies drawn
 //@   at genGeom#0 assume uint64(witnessN(v)) == result + 1
 //@   at s.drawBits#0 assume result == v
+
+// ---------------------------------------------------------------------------------------------
+// C15: a Generator is an immutable specification after construction.
+//  - drawing (value) never writes a field of the generator object it is called on;
+//  - the lazily cached description Generator.str is written only inside strOnce.Do and read only after it;
+//  - memory stored in the process-wide caches (expandedTables, ...) is never written afterwards.
+
+//@ onceguarded Generator.str by strOnce
+
+//@ func expandRangeTable
+//@   nosafety "C15 is about what is written, not about index safety; the cache only ever holds []rune values"
+//@   assumes-pre forall(k, 0, len(t.R16), t.R16[k].Stride != 0) && forall(k, 0, len(t.R32), t.R32[k].Stride != 0)
+//@   ensures [C15] true
+//@   modifies published
+//@   loop 0 invariant [C15] -1 <= rangeindex && rangeindex < len(t.R16)
+//@   loop 1 invariant [C15] -1 <= rangeindex && rangeindex < len(t.R32)
+//@   loop 2 invariant [C15] -1 <= rangeindex && rangeindex < len(t.R16) && (arr(ret) == nil || !published[arr(ret)])
+//@   loop 3 invariant [C15] arr(ret) == nil || !published[arr(ret)]
+//@   loop 4 invariant [C15] -1 <= rangeindex && rangeindex < len(t.R32) && (arr(ret) == nil || !published[arr(ret)])
+//@   loop 5 invariant [C15] arr(ret) == nil || !published[arr(ret)]
+
+//@ func (*Generator).String@C15
+//@   immutable g
+//@   ensures [C15] true
+//@   modifies g.str, g.strOnce, onceIn, onceDone
+
+//@ func (*Generator).value@C15
+//@   immutable g
+//@   noframe "runs the generator implementation"
+//@   ensures [C15] true
+//@   panics any: true
+//@   modifies drawn, t.failed, t.cleanups, elems(t.cleanups), t.ctx, t.cancelCtx, t.draws, stream(t.s)
+
+//@ func (*deferredGen).value
+//@   immutable g
+//@   noframe "runs the deferred generator"
+//@   ensures [C15] true
+//@   panics any: true
+//@   modifies drawn, t.failed, t.cleanups, elems(t.cleanups), t.ctx, t.cancelCtx, t.draws, stream(t.s)
+
+//@ callback func() *Generator[V]
+//@   params fn
+//@   panics any: true
